@@ -1517,6 +1517,7 @@ fn lock_release_scenario(ctx: &Ctx, n: usize, ev: &mut Evidence) {
                 // the session ends
                 log.push(format!("session {c} closes"));
                 classes.push("close".into());
+                let closed_id = conns[c].as_ref().map(|x| x.client_id.clone()).unwrap_or_default();
                 conns[c] = None;
                 let me = client_no[c];
                 let mut a = std::mem::take(&mut asked[c]);
@@ -1530,8 +1531,20 @@ fn lock_release_scenario(ctx: &Ctx, n: usize, ev: &mut Evidence) {
                 locks.session_ended(me);
                 client_no[c] = next_client;
                 next_client += 1;
-                // the disconnect is processed asynchronously; a marker on the other session orders it
-                tokio::time::sleep(Duration::from_millis(30)).await;
+                // the disconnect is processed asynchronously: wait (logically) until the server has removed the
+                // session's $SYS entries, which it does at the end of its disconnect handling
+                let deadline = tokio::time::Instant::now() + Duration::from_secs(30);
+                loop {
+                    use worterbuch_common::WbApi;
+                    match server.api.pget(format!("$SYS/clients/{closed_id}/#")).await {
+                        Ok(v) if v.is_empty() => break,
+                        _ => {}
+                    }
+                    if closed_id.is_empty() || tokio::time::Instant::now() > deadline {
+                        return Err(("inconclusive".to_owned(), json!({"why": "the server did not process a session end within the watchdog"})));
+                    }
+                    tokio::time::sleep(Duration::from_millis(2)).await;
+                }
                 continue;
             }
             let me = client_no[c];
@@ -1619,6 +1632,10 @@ fn lock_release_scenario(ctx: &Ctx, n: usize, ev: &mut Evidence) {
                 ev.known(&ctx.findings, F_GHOST);
             }
             ev.eval(hash);
+        }
+        Err((sig, _)) if sig == "inconclusive" => {
+            ev.inconclusive += 1;
+            ev.count("lock_release_scenarios_inconclusive", 1);
         }
         Err((sig, d)) if sig == "known" => {
             // accepted only together with the recorded server-side symptom
